@@ -12,8 +12,8 @@ import (
 )
 
 func init() {
-	generators["C07"] = func(c *Ctx) { genDkgRuns(c, "C07"); genLargeCommittee(c) }
-	generators["C08"] = func(c *Ctx) { genDkgRuns(c, "C08"); genLargeCommittee(c) }
+	generators["C07"] = func(c *Ctx) { genDkgRuns(c, "C07"); genLargeCommittee(c); genStructuredDealings(c) }
+	generators["C08"] = func(c *Ctx) { genDkgRuns(c, "C08"); genLargeCommittee(c); genStructuredDealings(c) }
 }
 
 type qmsg struct {
@@ -698,6 +698,56 @@ func genLargeCommittee(c *Ctx) {
 						d.call(tok)
 					}
 					c.Case(fmt.Sprintf("large-committee/%s/n=%d", proto, n), d.line(), d.answer())
+				}
+			}
+		}
+	}
+}
+
+// genStructuredDealings: dealings (correct vector, correct share) of polynomials chosen so that the Horner evaluation
+// of some participant's public key share meets a special case of point addition: at step i the accumulator times v
+// EQUALS the next coefficient (a doubling), or is its NEGATIVE (the sum is the point at infinity), or a coefficient is
+// zero (a point at infinity inside the vector). One receiver is instantiated; End returns every public key share, so a
+// wrong share of ANY participant shows in the comparison with the model, whoever the receiver is.
+func genStructuredDealings(c *Ctx) {
+	seedHex := hx(c.bytes(32))
+	n, t, me := 6, 3, 1
+	for v := 1; v <= n; v++ {
+		for i := 0; i < t; i++ {
+			for _, kind := range []string{"doubling", "opposite", "zero-coefficient"} {
+				pl := make(poly, t+1)
+				for j := range pl {
+					pl[j] = c.randScalar()
+				}
+				if kind == "zero-coefficient" {
+					if i == 0 {
+						continue
+					}
+					pl[i] = big.NewInt(0)
+				} else {
+					h := new(big.Int) // the accumulator before coefficient i is added: sum over j > i of a_j v^(j-i-1)
+					for j := t; j > i; j-- {
+						h.Mul(h, big.NewInt(int64(v))).Add(h, pl[j]).Mod(h, blsR)
+					}
+					h.Mul(h, big.NewInt(int64(v))).Mod(h, blsR)
+					if kind == "opposite" {
+						h.Sub(blsR, h).Mod(h, blsR)
+					}
+					pl[i] = h
+				}
+				if pl[0].Sign() == 0 {
+					continue
+				}
+				vec := hx(pl.vectorMsg())
+				for _, proto := range []string{"fvss", "fvssq"} {
+					d, err := newDkgNode(proto, n, t, me, 0)
+					if err != nil {
+						panic(err)
+					}
+					for _, tok := range []string{"S:" + seedHex, "B:0:" + vec, "P:0:" + hx(shareMsg(pl.eval(me+1))), "T", "T", "E"} {
+						d.call(tok)
+					}
+					c.Case(fmt.Sprintf("structured-dealing/%s/%s", kind, proto), d.line(), d.answer())
 				}
 			}
 		}
